@@ -8,6 +8,10 @@ fn build() -> Vec<Box<dyn Property>> {
     {
         let mut v: Vec<Box<dyn Property>> = vec![];
         for id in ["C01", "C02", "C03", "C04", "C05", "C07", "C08", "C09", "C14"] {
+            // a campaign run on behalf of one property evaluates that property's stages only
+            if std::env::var("VERIF_FUZZ_ONLY").map_or(false, |o| o != id) {
+                continue;
+            }
             for s in stages(id) {
                 // one stage per distinct generator; debug-profile stages are the same code here
                 if vcore::props::registry::fuzzable(&s) {
